@@ -27,6 +27,18 @@ ids 300..309 are multipath keys with 2 derivation paths, 310..319 with 3.
                                           <figure> is the library's own figure for <ast>,
                                           `-` = the script has no satisfaction
   C sortedmulti-new <ctx> <k> <k1,k2,..> <entry>  ok | ERR   (`Threshold::<Pk, 20>::new` + `*::new_sortedmulti`)
+  C keyonly <kind> <key> <entry>          ok | ERR   key-only descriptors pk/pkh/wpkh/sh_wpkh/tr
+  J keyok <entry> <kind> <key> <outcome>  ok iff (<outcome> = ok ⇔ the context of <kind> permits the key's
+                                          kind) and the entry point did not panic
+  C decodemax <ctx> <ast> <tag>           ok | ERR   decode_with_validation_params(encode(<ast>), MAX)
+  C traccept <entry> <tree>               ok | ERR   `{a,{b,c}}` tree of leaf ASTs through
+                                          tr_new / tr_str / desc
+  J trok <entry> <tree>                   ok iff leaf depths <= 128 and every leaf obeys ctxOK tap
+  C decodevp <ctx> <p> <ast> [tag]        ok | ERR[:<kind>]   decode_with_validation_params where
+                                          the script decodes to <ast>
+  J mono <ctx> <r> <p> <ast> <vr> <vp>    ok iff r is a tightening of p and (accepted under r ⇒
+                                          accepted under p)
+  J vp-order <p> <q> <intersect> <entails> ok iff <intersect> is the meet and <entails> = (p ≤ q)
   J t4 <class> <entry> <ast> <desc> <ms>  ok unless the descriptor parser accepted and the
                                           miniscript parser with `Ctx::CONSENSUS` rejected
 -/
@@ -147,13 +159,68 @@ def switchDefect (F : Spec.Facts) (ctx : Ctx) (p : ValidationParams) (ms : Ms) :
     some (Spec.hasXOnlyKey F ms || (!p.allowCompressedKeys && Spec.hasCompressedKey F ms))
   | "compressed_keys" => some (!p.allowXOnlyKeys && Spec.hasCompressedKey F ms)
   | "inconsistent_multipath_keys" => some (Spec.hasDefect_multipath F ms)
+  | "unsatisfiable" => some (Spec.hasDefect_unsatisfiable ms)
   | _ => none
 
 /-- a `0` somewhere: the mixed-time-lock analysis is only claimed sound (not exact) then -/
 def hasFalse (ms : Ms) : Bool := Spec.someNode (fun | .fls => true | _ => false) ms
 
+def parseKeyDesc : String → Option KeyDesc
+  | "pk" => some .pk | "pkh" => some .pkh | "wpkh" => some .wpkh | "sh_wpkh" => some .shWpkh
+  | "tr" => some .tr | _ => none
+
+/-- `{a,{b,c}}` with ASTs at the leaves -/
+def parseTapT : Nat → List Char → Option (TapT × List Char)
+  | 0, _ => none
+  | fuel + 1, '{' :: rest =>
+    match parseTapT fuel rest with
+    | some (l, ',' :: rest) =>
+      match parseTapT fuel rest with
+      | some (r, '}' :: rest) => some (.node l r, rest)
+      | _ => none
+    | _ => none
+  | fuel + 1, cs => (parseMs (fuel + cs.length) cs).map fun (m, rest) => (.leaf m, rest)
+
+def parseTree (s : String) : Option TapT :=
+  match parseTapT (s.length + 2) s.toList with
+  | some (t, []) => some t
+  | _ => none
+
 def opsValidate (t : Tables) (kind op : String) (args : List String) : Option String :=
   match kind, op, args with
+  | "C", "keyonly", [d, k, entry] => do
+    let d ← parseKeyDesc d; let k ← k.toNat?
+    pure (match keyOnlyOutcome (keyInfoOf t) d (entry == "Descriptor::new_pk") k with
+          | .ok => "ok" | .err => "ERR" | .panic => "PANIC")
+  | "J", "keyok", [_entry, d, k, outcome] => do
+    let d ← parseKeyDesc d; let k ← k.toNat?
+    let allowed := Spec.keyAllowed (factsOf t d.ctx) d.ctx k
+    pure (if outcome == "PANIC" then "bad:panic-instead-of-error"
+          else if outcome == "ok" && !allowed then "bad:key-kind-accepted"
+          else if outcome != "ok" && allowed then "bad:permitted-key-rejected" else "ok")
+  | "C", "decodemax", [ctx, ast, _tag] => do
+    let ctx ← parseCtx ctx; let ms ← parseAst ast
+    pure (if decodeMaxAccepts t.keyEnv (keyInfoOf t) ctx ms then "ok" else "ERR")
+  | "C", "traccept", [entry, tree] => do
+    let e ← parseEntry entry; let tr ← parseTree tree
+    pure (if trTreeAccepts t.keyEnv (keyInfoOf t) e tr then "ok" else "ERR")
+  | "J", "trok", [_entry, tree] => do
+    let tr ← parseTree tree
+    pure (if Spec.tapTreeOK (factsOf t .tap) (tr.depths 0) tr.leaves then "ok" else "bad")
+  | "C", "decodevp", ctx :: p :: ast :: _ => do
+    let ctx ← parseCtx ctx; let p ← parseParams p; let ms ← parseAst ast
+    pure (if decConstructed t.keyEnv (keyInfoOf t) ctx ms
+          then showVerdict (validate t.keyEnv (keyInfoOf t) ctx p ms) else "ERR")
+  | "J", "mono", [_ctx, r, p, _ast, vr, vp] => do
+    let r ← parseParams r; let p ← parseParams p
+    pure (if !r.le p then "bad:not-a-tightening"
+          else if !isErr vr && isErr vp then "bad:tighter-params-admit-more" else "ok")
+  | "J", "vp-order", [p, q, r, e] => do
+    let p ← parseParams p; let q ← parseParams q; let r ← parseParams r
+    -- `r` claims to be the meet: a lower bound of both that is above every lower bound
+    pure (if !(r.le p && r.le q) then "bad:intersect-not-a-lower-bound"
+          else if !(p.intersect q).le r then "bad:intersect-not-greatest"
+          else if (e == "1") != p.le q then "bad:entails" else "ok")
   | "C", "vp-const", [name] => (constParams name).map showParams
   | "C", "vp-intersect", [p, q] => do
     let p ← parseParams p; let q ← parseParams q
